@@ -134,14 +134,23 @@ class _Canon(ast.NodeTransformer):
 
     _EXACT_NEG = {ast.Eq: ast.NotEq, ast.NotEq: ast.Eq, ast.Is: ast.IsNot, ast.IsNot: ast.Is, ast.In: ast.NotIn, ast.NotIn: ast.In}
 
+    def _neg(self, e):
+        """negation normal form of `not e` (e already canonical): double negations removed, De Morgan applied,
+        `not (a == b)` -> `a != b` for the exact negations (== / is / in) - `not (a < b)` stays: it is NOT `a >= b` for NaN"""
+        if isinstance(e, ast.UnaryOp) and isinstance(e.op, ast.Not):
+            return e.operand
+        if isinstance(e, ast.BoolOp):
+            other = ast.Or() if isinstance(e.op, ast.And) else ast.And()
+            return ast.copy_location(ast.BoolOp(op=other, values=[self._neg(v) for v in e.values]), e)
+        if isinstance(e, ast.Compare) and len(e.ops) == 1 and type(e.ops[0]) in self._EXACT_NEG:
+            new = ast.Compare(left=e.left, ops=[self._EXACT_NEG[type(e.ops[0])]()], comparators=e.comparators)
+            return self.visit_Compare(ast.copy_location(new, e))
+        return ast.copy_location(ast.UnaryOp(op=ast.Not(), operand=e), e)
+
     def visit_UnaryOp(self, node):
         self.generic_visit(node)
-        # `not (a == b)` -> `a != b` (and is / in): exact negations only - `not (a < b)` is NOT `a >= b` for NaN
-        if isinstance(node.op, ast.Not) and isinstance(node.operand, ast.Compare) and len(node.operand.ops) == 1 \
-                and type(node.operand.ops[0]) in self._EXACT_NEG:
-            c = node.operand
-            new = ast.Compare(left=c.left, ops=[self._EXACT_NEG[type(c.ops[0])]()], comparators=c.comparators)
-            return self.visit_Compare(ast.copy_location(new, node)) if True else new
+        if isinstance(node.op, ast.Not):
+            return ast.copy_location(self._neg(node.operand), node)
         return node
 
     _NEGATIVE = {ast.NotEq: ast.Eq, ast.IsNot: ast.Is, ast.NotIn: ast.In}
@@ -194,8 +203,16 @@ class _CanonStmts(ast.NodeTransformer):
 
     def visit_FunctionDef(self, node):
         self.uses.append(self._count(node))
+        occ: dict[str, int] = {}
+        for n in ast.walk(node):
+            if isinstance(n, ast.Name):
+                occ[n.id] = occ.get(n.id, 0) + 1
+        if not hasattr(self, "test_temps"):
+            self.test_temps = []
+        self.test_temps.append(occ)
         self.generic_visit(node)
         self.uses.pop()
+        self.test_temps.pop()
         return node
 
     visit_AsyncFunctionDef = visit_FunctionDef
@@ -233,6 +250,25 @@ class _CanonStmts(ast.NodeTransformer):
         while i < len(body):
             st = body[i]
             nxt = body[i + 1] if i + 1 < len(body) else None
+            # `t = e; if t: ...` with t used nowhere else -> `if e: ...`
+            if (isinstance(st, ast.Assign) and len(st.targets) == 1 and isinstance(st.targets[0], ast.Name)
+                    and isinstance(nxt, ast.If) and self.test_temps[-1].get(st.targets[0].id, 0) == 2):
+                t = st.targets[0].id
+                if isinstance(nxt.test, ast.Name) and nxt.test.id == t:
+                    nxt.test = st.value
+                    out.append(nxt)
+                    i += 2
+                    continue
+                # ... or the first operand of the test (evaluated first, as the assignment was)
+                if isinstance(nxt.test, ast.BoolOp) and isinstance(nxt.test.values[0], ast.Name) and nxt.test.values[0].id == t:
+                    v = st.value
+                    if isinstance(v, ast.BoolOp) and type(v.op) is type(nxt.test.op):
+                        nxt.test.values[0:1] = v.values
+                    else:
+                        nxt.test.values[0] = v
+                    out.append(nxt)
+                    i += 2
+                    continue
             if (isinstance(st, ast.Assign) and len(st.targets) == 1 and isinstance(st.targets[0], ast.Name)
                     and isinstance(nxt, ast.Return) and isinstance(nxt.value, ast.Name) and nxt.value.id == st.targets[0].id
                     and self.uses[-1].get(st.targets[0].id, 0) == 2):
